@@ -87,3 +87,17 @@ extern "C" void h_split_separators(void) {
     std::vector<std::string> rq = toks(A + std::string(1, s2) + Q + std::string(1, s3) + B);
     CHECK(rq.size() == 3 && rq[0] == A && rq[1] == Q && rq[2] == B);
 }
+// keyword-name case: the deck name is the upper-cased first word, whatever the case it was typed in
+extern "C" void h_deck_name(void) {
+    unsigned long n; std::string s = mktext(n);
+    std::string t = s;
+    for (unsigned long i = 0; i < n; ++i) {
+        if (t[i] >= 'A' && t[i] <= 'Z' && nondet_bool()) t[i] = (char) (t[i] + 32);          // any subset of the letters typed in lower case
+        else if (t[i] >= 'a' && t[i] <= 'z' && nondet_bool()) t[i] = (char) (t[i] - 32);
+    }
+    std::string a = Opm::str::make_deck_name(s), b = Opm::str::make_deck_name(t);
+    CHECK(a == b);
+    unsigned long k = 0; while (k < n && !is_sep(s[k])) ++k;
+    CHECK(a.size() == k);
+    for (unsigned long i = 0; i < k; ++i) CHECK(a[i] == ((s[i] >= 'a' && s[i] <= 'z') ? (char) (s[i] - 32) : s[i]));
+}
